@@ -71,8 +71,10 @@ ASBUILT = {
   components, tight solves, rtol 1e-7 (observed <= 5e-10). Not comparable (counted): a non-converged side, a pump /
   compressor without flow (no unique lift). **Found and fixed:** `t_outlet_k` written to the wrong pipes for unsorted indices
   with different section counts. **Open finding:** in Sector.NONE nets the start temperatures of interior nodes depend on the
-  order in which the component tables were created (section 6, last row; the twin that showed it is switched off because its
-  oracle could not be made sound in time).""",
+  order in which the component tables were created. A fourth twin (30 % of the hydraulic cases) builds the net as Sector.NONE
+  net with shuffled creation order, so that the internal order of the component tables changes; a difference is classified by a
+  third run (section 6). **Found and fixed through it:** valves at pipe ends wired to the wrong pipes / written before the pipe
+  rows existed when the pipe table is not the first branch table.""",
 "C07": """* **As built (`props/c07.py`):** (a) 200 / 6000 random kernel batches with forced edge rows through all twin pairs
   (hydraulic incompressible / compressible, both Nikuradse variants, mean pressure, derived values, thermal steady-state and
   transient, grouped sums up to index 250 000 for int64 / int32 / uint32 index arrays, each engine also against a plain
